@@ -4,7 +4,7 @@
    observation with oracles that do not go through the model's algorithms. *)
 From SC Require Export Base.Prelude Traits.Str Traits.Parent Traits.Vending Traits.FanSpeed Traits.ModeTrait
   Traits.EnterLeave Traits.Meter Traits.Publication Traits.Options Traits.Store Traits.VendingStore Traits.FanMask.
-From SC Require Export Msg.Msg Msg.Schema Msg.Path Masks.Get Traits.MeterMask Traits.StockMask Traits.PubStore.
+From SC Require Export Msg.Msg Msg.Schema Msg.Path Masks.Get Traits.MeterMask Traits.StockMask Traits.PubStore Traits.TraitPull Traits.TraitPullProofs.
 From Coq Require Import QArith Qabs.
 Open Scope Z_scope.
 
@@ -27,7 +27,10 @@ Inductive c20case :=
 | KSchema (dumped : schema)
 | KStockMask (name : string) (pre : option zstock) (req : zstock) (um : mask) (code : Z) (ret_ok : bool)
              (post : option zstock) (other_same : bool)
-| KPubs (now : Z) (pre : pubs) (o : pubop) (cands : list string) (obs : pout) (post : pubs) (hpre hpost : string).
+| KPubs (now : Z) (pre : pubs) (o : pubop) (cands : list string) (obs : pout) (post : pubs) (hpre hpost : string)
+| KPullEL (uo : bool) (s0 : elev) (t0 : Z) (ops : list (elop * Z)) (acc : list bool) (stream : list (elev * Z)) (gets : list elev)
+| KPullMeter (uo : bool) (s0 : mmeter) (t0 : Z) (ops : list (mmop * Z)) (acc : list bool) (stream : list (mmeter * Z)) (gets : list mmeter)
+| KPullFan (uo : bool) (ps : list preset) (s0 : fan) (t0 : Z) (ops : list (fan * bool * Z)) (acc : list bool) (stream : list (fan * Z)) (gets : list fan).
 
 (* ---- meter with arbitrary update masks (paths) ---- *)
 Definition ts_eqb (a b : ts) : bool := (fst a =? fst b) && (snd a =? snd b).
@@ -603,6 +606,40 @@ Definition pubs_ok (now : Z) (pre : pubs) (o : pubop) (cands : list string) (obs
        end
      else pub_ok now (sfind id pre) o obs (sfind id post) hpre hpost.
 
+(* ---- Pull streams of the one-value trait models ---- *)
+(* independent of the stream model: the changes after the seed are the getter values after the accepted
+   operations, in order, with the operations' clock readings; the last change is the current getter value *)
+Fixpoint accepted_of {A B : Type} (acc : list bool) (ops : list (A * Z)) (gets : list B) : list (B * Z) :=
+  match acc, ops, gets with
+  | a :: acc', o :: ops', v :: gets' => (if a then [(v, snd o)] else []) ++ accepted_of acc' ops' gets'
+  | _, _, _ => []
+  end.
+Fixpoint drop_repeats {B : Type} (eqb : B -> B -> bool) (held : option B) (l : list (B * Z)) : list (B * Z) :=
+  match l with
+  | [] => []
+  | x :: r => if match held with Some h => eqb h (fst x) | None => false end then drop_repeats eqb held r
+              else x :: drop_repeats eqb (Some (fst x)) r
+  end.
+Definition pull_ok {A B : Type} (eqb : B -> B -> bool) (view : B -> B) (dedupe : bool) (uo : bool) (s0 : B) (t0 : Z)
+           (ops : list (A * Z)) (acc : list bool) (stream : list (B * Z)) (gets : list B) : bool :=
+  let pair_eqb := fun x y : B * Z => eqb (fst x) (fst y) && (snd x =? snd y) in
+  let accepted_of := fun acc ops gets =>
+    if dedupe then drop_repeats eqb (if uo then None else Some s0) (accepted_of acc ops gets) else accepted_of acc ops gets in
+  (List.length acc =? List.length ops)%nat && (List.length gets =? List.length ops)%nat &&
+  match uo, stream with
+  | false, seed :: changes =>
+      pair_eqb seed (view s0, t0) && list_eqb pair_eqb changes (accepted_of acc ops gets)
+      && eqb (last (map fst changes) (last gets s0)) (last gets s0)
+  | true, changes =>
+      list_eqb pair_eqb changes (accepted_of acc ops gets)
+      && (negb (existsb (fun b => b) acc) || eqb (last (map fst changes) s0) (last gets s0))
+  | false, [] => false
+  end.
+Definition pull_agrees {A B : Type} (eqb : B -> B -> bool) (step : B -> A -> option B) (view : B -> B)
+           (equiv : option (option B -> option B -> bool)) (uo : bool)
+           (s0 : B) (t0 : Z) (ops : list (A * Z)) (stream : list (B * Z)) : bool :=
+  list_eqb (fun x y : B * Z => eqb (fst x) (fst y) && (snd x =? snd y)) stream (tp_stream step view equiv uo s0 t0 ops).
+
 Definition C20_ok (c : c20case) : bool :=
   match c with
   | KParent pre o ret post => parent_ok pre o ret post
@@ -627,6 +664,9 @@ Definition C20_ok (c : c20case) : bool :=
   | KSchema _ => true
   | KStockMask _ pre req um code ret_ok post other_same => stock_mask_ok pre req um code ret_ok post other_same
   | KPubs now pre o cands obs post hpre hpost => pubs_ok now pre o cands obs post hpre hpost
+  | KPullEL uo s0 t0 ops acc stream gets => pull_ok elev_eqb el_seed_view false uo s0 t0 ops acc stream gets
+  | KPullMeter uo s0 t0 ops acc stream gets => pull_ok mm_eqb (fun m => m) false uo s0 t0 ops acc stream gets
+  | KPullFan uo ps s0 t0 ops acc stream gets => pull_ok fan_eqb (fun m => m) true uo s0 t0 ops acc stream gets
   end.
 
 Definition C20_guard (c : c20case) : bool :=
@@ -650,6 +690,7 @@ Definition C20_guard (c : c20case) : bool :=
   | KFanMask ps pre _ _ _ _ => presets_wf ps && fan_consistent ps pre
   | KMeterSeq _ _ _ _ _ | KSchema _ | KStockMask _ _ _ _ _ _ _ _ => true
   | KPubs _ pre _ _ _ _ _ _ => store_wf pre
+  | KPullEL _ _ _ _ _ _ _ | KPullMeter _ _ _ _ _ _ _ | KPullFan _ _ _ _ _ _ _ _ => true
   end.
 
 Definition agrees (c : c20case) : bool :=
@@ -690,6 +731,9 @@ Definition agrees (c : c20case) : bool :=
   | KSchema dumped => schema_agrees meter_schema dumped && schema_agrees stock_schema dumped
   | KStockMask name pre req um code _ post _ => stock_mask_agrees name pre req um code post
   | KPubs now pre o cands obs post hpre hpost => pubs_agrees now pre o cands obs post hpre hpost
+  | KPullEL uo s0 t0 ops _ stream _ => pull_agrees elev_eqb el_pull_step el_seed_view None uo s0 t0 ops stream
+  | KPullMeter uo s0 t0 ops _ stream _ => pull_agrees mm_eqb mm_pull_step (fun m => m) None uo s0 t0 ops stream
+  | KPullFan uo ps s0 t0 ops _ stream _ => pull_agrees fan_eqb (fan_pull_step ps) (fun m => m) (Some (option_eqb fan_eqb)) uo s0 t0 ops stream
   end.
 
 Definition judge (c : c20case) : Z :=
